@@ -1983,6 +1983,10 @@ package sod
 //@ ensures [C01 delobj.wf-base] wfDBbase(db) && has(db.schemas, T) && db.schemas[T] == sch && sch.ObjectIndex == idx
 //@ ensures [C20 delobj.elems] elemsFramed(idx)
 //@ ensures [C01 delobj.wf] imp(!isStorage(err), collsOK(db))
+//@ callhint (*iterator).next@loop1 [C01 current-gone] imp(!rev && i0 == 0, 1 <= from.i && from.i <= len(us) && !has(idx.uuids, us[from.i - 1]))
+//@ callhint (*iterator).next@loop1 [C01 others-kept] forallk(w, string, imp(has(idx.uuids, w), since(L1, old(has(idx.uuids, w)))))
+//@ callhint (*iterator).next@loop1 [C01 gone-so-far] imp(!rev && i0 == 0, forall(k, 0, from.i, k >= len(us) || !has(idx.uuids, us[k])))
+//@ loop 1 snap L1
 //@ loop 1 invariant [frame] preserved(Elem[string], iterator.uuids, iterator.reverse, iterator.db, iterator.tdyn, DB.schemas, DB.cache, DB.asyncw, DB.root, Schema.ObjectIndex, Schema.coherent, objIndex.uuids, objIndex.ObjectIds, objIndex.Fields) && preservedAt(MapDom[string,*Schema], db.schemas) && preservedAt(MapVal[string,*Schema], db.schemas) && preservedAt(MapCard[string,*Schema], db.schemas) && preservedAt(iterator.i, from)
 //@ loop 1 invariant [locals] H == 2 && SL == 0 && HS == 0 && HM == 0
 //@ loop 1 invariant [table] has(db.schemas, T) && db.schemas[T] == sch && sch.ObjectIndex == idx && sch.coherent && forallk(t, string, imp(has(db.schemas, t), t == T))
